@@ -467,6 +467,26 @@ func GenOp(r *Rng, p GenParams, v *imgView) Op {
 	switch {
 	case k < 42:
 		d := GenDInput(r, p, v, true)
+		if r.Chance(1, 7) {
+			// the separate stream of rejected calls: keep the description (in particular a
+			// primary partition) and give it one reason to be refused after the checks
+			switch r.Intn(3) {
+			case 0:
+				d.NameSet, d.Name = true, string(make([]byte, 129+r.Intn(2)))
+				d.Name = "n" + d.Name[1:]
+			case 1:
+				if len(d.Content) == 0 {
+					d.Content = GenContent(r, 1+r.Intn(50))
+				}
+				d.FailAfter = r.Intn(len(d.Content) + 1)
+			default:
+				if d.Type != DataPartition {
+					d.MdSet, d.Md = true, Meta{Kind: MdRaw, How: "raw", Raw: GenContent(r, 385+r.Intn(3))}
+				} else {
+					d.FailAfter = 0
+				}
+			}
+		}
 		// guess the ID it will get: lowest free
 		used := map[uint32]bool{}
 		for _, id := range v.ids {
